@@ -538,7 +538,11 @@ func (e *env) dump() string {
 		for key, r := range ent.CNameRecords {
 			cn = append(cn, hstr(key)+"\x00"+hstr(r.CName)+"="+hstr(r.Name))
 		}
-		dn = append(dn, hstr(ent.Name)+"{"+sortedVals(a4)+"/"+sortedVals(a6)+"/"+sortedVals(cn)+"}")
+		var pt []string
+		for key, r := range ent.PTRRecords {
+			pt = append(pt, hstr(key)+"\x00"+ipKey(r.IP)+"="+hstr(r.Name))
+		}
+		dn = append(dn, hstr(ent.Name)+"{"+sortedVals(a4)+"/"+sortedVals(a6)+"/"+sortedVals(cn)+"/"+sortedVals(pt)+"}")
 	}
 	return "H:" + strings.Join(hs, ",") + ";M:" + strings.Join(ms, ",") + ";L:" + strings.Join(ls, ",") +
 		";R:" + strings.Join(rs, ",") + ";D:" + strings.Join(dn, ",")
